@@ -619,7 +619,7 @@ func (fc *FnCtx) evalSliceExpr(st *State, x *ast.SliceExpr) Val {
 		}
 		fc.assert(st, and(fc.leIdx(zero, lo), fc.leIdx(lo, hi), fc.leIdx(hi, app("gs.len", base.T))), "bounds", "string slice bounds", x.Pos())
 		fc.declareOnce("gs.sub", fmt.Sprintf("(declare-fun gs.sub (Str %s %s) Str)", fc.I(), fc.I()))
-		fc.declareAxiomOnce("gs.sub.ax", "gs.sub", fmt.Sprintf("(assert (forall ((s Str) (a %s) (b %s)) (! (= (gs.len (gs.sub s a b)) %s) :pattern ((gs.sub s a b)))))", fc.I(), fc.I(), fc.subIdx("b", "a")))
+		fc.declareAxiomOnce("gs.sub.ax", "gs.sub", fmt.Sprintf("(assert (forall ((s Str) (a %s) (b %s)) (! (=> (and %s %s) (= (gs.len (gs.sub s a b)) %s)) :pattern ((gs.sub s a b)))))", fc.I(), fc.I(), fc.leIdx(fc.idxLit(0), "a"), fc.leIdx("a", "b"), fc.subIdx("b", "a")))
 		fc.declareAxiomOnce("gs.sub.ax2", "gs.sub", fmt.Sprintf("(assert (forall ((s Str) (a %s) (b %s) (i %s)) (! (= (gs.at (gs.sub s a b) i) (gs.at s %s)) :pattern ((gs.at (gs.sub s a b) i)))))", fc.I(), fc.I(), fc.I(), fc.addIdx("a", "i")))
 		return Val{T: app("gs.sub", base.T, lo, hi), Ty: fc.typeOf(x)}
 	case *types.Array:
@@ -674,7 +674,18 @@ func (fc *FnCtx) evalCompositeLit(st *State, x *ast.CompositeLit, addr bool) Val
 				sort := fmt.Sprintf("(Array Int %s)", fc.sortOf(u.Field(j).Type()))
 				fc.heapSet(st, key, sort, app("store", fc.heapGet(st, key, sort), r, vals[j].T))
 			}
-			return Val{T: r, Ty: types.NewPointer(ty)}
+			// declared ghost-field defaults of the new object and of its struct-valued fields (e.g. an embedded
+			// zero list.List is the empty list)
+			pv := Val{T: r, Ty: types.NewPointer(ty)}
+			fc.ghostDefaults(st, r, ty)
+			for j := 0; j < u.NumFields(); j++ {
+				if _, isNamed := u.Field(j).Type().(*types.Named); isNamed {
+					if _, isStruct := u.Field(j).Type().Underlying().(*types.Struct); isStruct && fc.hasGhostDefaults(u.Field(j).Type()) {
+						fc.ghostDefaults(st, fc.fieldAddr(st, pv, j, x.Pos()).T, u.Field(j).Type())
+					}
+				}
+			}
+			return pv
 		}
 		if !fc.isDatatype(ty) {
 			return fc.zero(ty)
@@ -774,8 +785,8 @@ func (fc *FnCtx) evalTypeAssert(st *State, x *ast.TypeAssertExpr, commaOk bool) 
 }
 
 func (fc *FnCtx) chanRecv(st *State, x *ast.UnaryExpr) []Val {
-	fc.fail(x.Pos(), "channel receive (outside subset here)")
-	return nil
+	v, _ := fc.recvFrom(st, x.X, x.Pos())
+	return []Val{v}
 }
 
 var _ = constant.MakeInt64
@@ -843,4 +854,23 @@ func (fc *FnCtx) ghostDefaults(st *State, addr string, t types.Type) {
 			fc.assume(st, app("=", app("select", arr, addr), v.T))
 		}
 	}
+}
+
+func (fc *FnCtx) hasGhostDefaults(t types.Type) bool {
+	n, ok := t.(*types.Named)
+	if !ok || n.Obj().Pkg() == nil {
+		return false
+	}
+	prefix := n.Obj().Pkg().Path() + "." + n.Obj().Name() + "."
+	for _, cs := range []*ContractSet{fc.cs, fc.eng.externs} {
+		if cs == nil {
+			continue
+		}
+		for k := range cs.GhostDefault {
+			if strings.HasPrefix(k, prefix) {
+				return true
+			}
+		}
+	}
+	return false
 }
